@@ -89,7 +89,7 @@ SPEC = dict(
         'state_init': dict(file=H, kind='expr', sig=r'std::atomic<state> state_\{([^}]*)\}'),
         'cleanupOp_init': dict(file=H, kind='expr', sig=r'cleanup_operation_base\* cleanupOp_ = ([^;]*);'),
         'nextReceiver_init': dict(file=H, kind='expr', sig=r'next_receiver_base\* nextReceiver_ = ([^;]*);'),
-        'cancel_callback': dict(file=H, sig=r'void operator\(\)\(\) noexcept', within=[NS, CNC], ctx=k_ctx, must_contain=[r'source_next_active_stream_stopped']),
+        'cancel_callback': dict(file=H, sig=r'void operator\(\)\(\) noexcept', within=[NS, CNC], ctx=k_ctx, must_contain=[r'stopSource_\.request_stop\(\)|nextReceiver_']),
         'handle_signal': dict(file=H, sig=r'void handle_signal\(Func deliverSignalTo\) noexcept', within=[NS, NR], ctx=s_ctx),
         'next_start': dict(file=H, sig=r'void start\(\) noexcept', within=[NS, NSND], ctx=n_ctx, must_contain=[r'nextReceiver_ = &concreteReceiver_']),
         'cleanup_start': dict(file=H, sig=r'void start\(\) noexcept', within=[NS, CSND], ctx=l_ctx, must_contain=[r'source_next_active_cleanup_requested']),
